@@ -1190,8 +1190,12 @@ class FilteredDirectoryContentsTask : public Task {
     //
     // Exit the loop if we encounter any errors, to prevent infinitely looping
     // over an invalid directory in some circumstances. rdar://101717159
+    //
+    // Do not follow symbolic links while iterating: the iterator reports an
+    // error for a dangling link, which would end the loop and silently drop
+    // the remaining entries.
     std::error_code ec;
-    for (auto it = llvm::sys::fs::directory_iterator(path, ec),
+    for (auto it = llvm::sys::fs::directory_iterator(path, ec, /*follow_symlinks=*/false),
          end = llvm::sys::fs::directory_iterator(); it != end && !ec;
          it = it.increment(ec)) {
       std::string filename = llvm::sys::path::filename(it->path());
